@@ -221,6 +221,7 @@ func main() {
 		{"once h1 {block}", OpOnce1Block, []string{"h:1"}},
 		{"once h2 (fixed component)", OpOnce2Fixed, []string{"h:2"}},
 		{"class={[]KeyValue[CSSClass,bool]{KV(c2,true),KV(c1,false)}}", OpClassKVSlice, []string{C2}},
+		{"class={KV(c2,false),plain,Classes(c2)} (switched off, then on: the last setting counts)", OpClassOffOn, []string{C2}},
 	}
 	ops := append([]op{}, base...)
 	// the same uses through wrapper components, child blocks and repeated in one component
@@ -329,6 +330,37 @@ func main() {
 		layout.ServeHTTP(httptest.NewRecorder(), httptest.NewRequest("GET", "/page", nil))
 		return [2]context.Context{got, templ.InitializeContext(context.Background())}
 	}})
+	// documents put together by templ.Join and rendered with a context templ has not initialised yet (rendered directly,
+	// or through templ.Handler without middleware): the joined components are one document with one registry
+	{
+		n := 0
+		for _, a := range base {
+			for _, b := range base {
+				joined := op{name: "join(" + a.name + ", " + b.name + ")", uses: append(append([]string{}, a.uses...), b.uses...)}
+				var u []string
+				seen := map[string]bool{}
+				for _, id := range joined.uses {
+					if id[0] == 'h' && seen[id] {
+						continue // a once body is rendered once however often the handle is used
+					}
+					seen[id] = true
+					u = append(u, id)
+				}
+				joined.uses = u
+				out := render(context.Background(), templ.Join(a.mk(), b.mk()))
+				n++
+				if pr := checkFresh(joined, out); pr != "" {
+					run.Violation("join-in-a-context-not-yet-initialised", fmt.Sprintf("templ.Join(%s, %s) rendered with context.Background(): %s: %s", a.name, b.name, vlib.Quote(out), pr), map[string]any{"first": a.name, "second": b.name, "output": out})
+				}
+				rec := httptest.NewRecorder()
+				templ.Handler(templ.Join(a.mk(), b.mk())).ServeHTTP(rec, httptest.NewRequest("GET", "/", nil))
+				if rec.Body.String() != out {
+					run.Violation("join-in-a-context-not-yet-initialised", fmt.Sprintf("templ.Handler(templ.Join(%s, %s)) serves %s, rendered directly it is %s", a.name, b.name, vlib.Quote(rec.Body.String()), vlib.Quote(out)), map[string]any{"first": a.name, "second": b.name})
+				}
+			}
+		}
+		run.Cov["joined_documents_in_bare_contexts"] = n
+	}
 	// the document a client gets when the page fails: the buffered handler discards what the page had written and serves
 	// the error handler's component, rendered with the request's context. That document is checked like any other:
 	// every definition it uses before the use. Known finding: the failed page's definitions count as emitted.
@@ -364,6 +396,22 @@ func main() {
 						}
 						run.Violation(key, fmt.Sprintf("page [%s, then an error] behind %s, error handler renders [%s]: the client gets %s: %s", pageOp.name, initialised, errOp.name, vlib.Quote(rec.Body.String()), pr), map[string]any{"page": pageOp.name, "error_page": errOp.name, "body": rec.Body.String()})
 					}
+				}
+			}
+		}
+		// the same behind a middleware that registers c1: whatever the error page uses, the registered class is served
+		// by the stylesheet and never inlined, also after a failed page
+		for _, pageOp := range base {
+			for _, errOp := range base {
+				pageOp, errOp := pageOp, errOp
+				h := templ.Handler(templ.Join(pageOp.mk(), boom), templ.WithErrorHandler(func(r *http.Request, err error) http.Handler {
+					return templ.Handler(errOp.mk())
+				}))
+				rec := httptest.NewRecorder()
+				templ.NewCSSMiddleware(h, c1()).ServeHTTP(rec, httptest.NewRequest("GET", "/page", nil))
+				errPageChecks++
+				if strings.Contains(rec.Body.String(), "."+c1ID+"{") {
+					run.Violation("registered-class-inlined-in-error-page", fmt.Sprintf("page [%s, then an error] behind a CSS middleware registering c1, error handler renders [%s]: the registered class is inlined: %s", pageOp.name, errOp.name, vlib.Quote(rec.Body.String())), map[string]any{"page": pageOp.name, "error_page": errOp.name, "body": rec.Body.String()})
 				}
 			}
 		}
